@@ -1,0 +1,18 @@
+//! Verification hooks (C06), compiled only with `--cfg linfa_verif`.
+//!
+//! Read-only access to the external `kodama::linkage` call used by
+//! `ValidHierarchicalCluster::transform`, so that the correspondence harness can
+//! read the dendrogram the transform replays.
+
+/// `(cluster1, cluster2, dissimilarity, size)` of every step of `kodama::linkage`
+pub fn linkage_steps(
+    condensed: &mut [f64],
+    observations: usize,
+    method: kodama::Method,
+) -> Vec<(usize, usize, f64, usize)> {
+    kodama::linkage(condensed, observations, method)
+        .steps()
+        .iter()
+        .map(|s| (s.cluster1, s.cluster2, s.dissimilarity, s.size))
+        .collect()
+}
